@@ -10,6 +10,40 @@ import (
 // GoFloatToInt models Go's float→signed-integer conversion as the amd64 backend performs it:
 // truncation when the value is representable, 0x8000000000000000 otherwise (NaN, ±Inf, overflow).
 func GoFloatToInt(x *Term, w int) *Term {
+	if w == 64 && x.Sort == FP64 {
+		// exactness shortcut: int(float64(a)), int(float64(a) +- float64(b)) equal a, a +- b whenever
+		// the integers are below 2^52 in magnitude (conversions, sum and truncation are then exact);
+		// outside that range the floating-point expression is kept.
+		small := func(t *Term) *Term {
+			return And(Slt(IntC(-(1 << 52)), t), Slt(t, IntC(1<<52)))
+		}
+		asInt := func(t *Term) (*Term, bool) {
+			if t.Op == OpSBVToFP && t.Args[0].Sort.W == 64 {
+				return t.Args[0], true
+			}
+			return nil, false
+		}
+		if a, ok := asInt(x); ok {
+			return Ite(small(a), a, goFloatToIntRaw(x, w))
+		}
+		if x.Op == OpFPSub || x.Op == OpFPAdd {
+			a, ok1 := asInt(x.Args[0])
+			b, ok2 := asInt(x.Args[1])
+			if ok1 && ok2 {
+				var r *Term
+				if x.Op == OpFPSub {
+					r = BVBin(OpBVSub, a, b)
+				} else {
+					r = BVBin(OpBVAdd, a, b)
+				}
+				return Ite(And(small(a), small(b)), r, goFloatToIntRaw(x, w))
+			}
+		}
+	}
+	return goFloatToIntRaw(x, w)
+}
+
+func goFloatToIntRaw(x *Term, w int) *Term {
 	x64 := x
 	if x.Sort.W == 32 {
 		x64 = FPToFP(x, FP64)
